@@ -1,228 +1,9 @@
 package main
 
 import (
-	"context"
-	"fmt"
-	"sort"
-	"sync"
-	"time"
-
-	"github.com/drand/drand/v2/common"
-	pubchain "github.com/drand/drand/v2/common/chain"
-	"github.com/drand/drand/v2/crypto"
-	"github.com/drand/drand/v2/internal/chain/beacon"
-	dnet "github.com/drand/drand/v2/internal/net"
-	"github.com/drand/drand/v2/verifharness/bnet"
-	"github.com/drand/drand/v2/verifharness/fix"
+	"github.com/drand/drand/v2/verifharness/repairchk"
 	"github.com/drand/drand/v2/verifharness/vlib"
-	vrt "verif.local/vrt"
 )
 
-type peerAddr string
-
-func (p peerAddr) Address() string { return string(p) }
-
-// checkCheck is c10-check (engine E2, exhaustive enumeration of corruption patterns): a store of 5 rounds in
-// which every round is independently {intact, deleted, signature altered, (chained) previous link broken};
-// the real CheckPastBeacons must report exactly the rounds that cannot be read back or do not reference-verify,
-// and the real CorrectPastBeacons (one honest peer, bad peers before it) must leave a store that checks clean
-// and whose other rounds are byte-identical.
-func checkCheck(c *vlib.Check) {
-	genesis := vrt.Epoch.Add(2 * time.Second).Unix()
-	const R = 5
-	type combo struct {
-		scheme, be string
-	}
-	var combos []combo
-	for _, sc := range []string{crypto.DefaultSchemeID, crypto.UnchainedSchemeID} {
-		for _, be := range fix.Backends {
-			combos = append(combos, combo{sc, be})
-		}
-	}
-	deadline := c.DeadlineIn(60*time.Second, 10*time.Minute)
-	for _, cb := range combos {
-		k := bnet.NewKeys(cb.scheme, 3, 2, 3*time.Second, genesis)
-		foreign := bnet.NewKeys(cb.scheme, 3, 2, 3*time.Second, genesis)
-		chained := cb.scheme == crypto.DefaultSchemeID
-		ref := k.RefChain(R)
-		foreign.RefChain(R)
-		states := []string{"ok", "deleted", "altered"}
-		if chained && cb.be != "bolt-trimmed" {
-			states = append(states, "badprev")
-		}
-		if cb.be == "memdb" {
-			states = []string{"ok", "deleted"} // the ring ignores a re-put of a stored round, so only deletions are repairable
-		}
-		nst := len(states)
-		total := 1
-		for i := 0; i < R; i++ {
-			total *= nst
-		}
-		var mu sync.Mutex
-		var wg sync.WaitGroup
-		sem := make(chan struct{}, c.Workers)
-		done, capped := 0, false
-		for code := 0; code < total; code++ {
-			if time.Now().After(deadline) {
-				capped = true
-				break
-			}
-			wg.Add(1)
-			sem <- struct{}{}
-			go func(code int) {
-				defer wg.Done()
-				defer func() { <-sem }()
-				pattern := make([]string, R+1)
-				x := code
-				for r := 1; r <= R; r++ {
-					pattern[r] = states[x%nst]
-					x /= nst
-				}
-				viol := oneCheckCase(k, foreign, cb.be, chained, ref, pattern)
-				mu.Lock()
-				done++
-				if done <= 2 {
-					c.Sample(map[string]any{"harness": "c10-check", "scheme": cb.scheme, "backend": cb.be, "pattern(rounds 1..5)": pattern[1:]})
-				}
-				mu.Unlock()
-				for fp, d := range viol {
-					c.Report("c10/check/"+fp+"/"+cb.be, fmt.Sprintf("c10-check %s %s pattern(rounds 1..5)=%v: %s", cb.scheme, cb.be, pattern[1:], d), map[string]any{"harness": "c10-check", "scheme": cb.scheme, "backend": cb.be, "pattern": pattern[1:]})
-				}
-			}(code)
-		}
-		wg.Wait()
-		c.Count("states", int64(done))
-		c.Count("transitions", int64(done)*2)
-		c.Count("traces", int64(done))
-		c.Count("evaluations", int64(done))
-		c.Count("distinct", int64(done))
-		c.Exhaustive(!capped)
-		c.Sub(fmt.Sprintf("c10-check/%s/%s", cb.scheme, cb.be), map[string]any{"engine": "E2 exhaustive enumeration on the real store + SyncManager", "corruption_patterns": done, "of": total, "capped": capped})
-	}
-	fix.RemoveTemplates()
-}
-
-func oneCheckCase(k, foreign *bnet.Keys, be string, chained bool, ref []*common.Beacon, pattern []string) map[string]string {
-	viol := map[string]string{}
-	ctx, cancel := context.WithTimeout(context.Background(), 60*time.Second)
-	defer cancel()
-	R := uint64(len(pattern) - 1)
-	base, cleanup, err := fix.NewBackendSize(ctx, be, chained, 64)
-	if err != nil {
-		viol["harness-setup"] = err.Error()
-		return viol
-	}
-	defer cleanup()
-	stored := map[uint64]*common.Beacon{}
-	for r := uint64(0); r <= R; r++ {
-		b := fix.CopyBeacon(ref[r])
-		switch pattern[r] {
-		case "deleted":
-			continue
-		case "altered":
-			b.Signature[len(b.Signature)/3] ^= 0x20
-		case "badprev":
-			b.PreviousSig = append([]byte{}, b.PreviousSig...)
-			b.PreviousSig[0] ^= 0x01
-		}
-		if err := base.Put(ctx, b); err != nil {
-			viol["harness-setup"] = err.Error()
-			return viol
-		}
-		stored[r] = b
-	}
-	// reference: which rounds cannot be read back or do not verify
-	trimmed := be == "bolt-trimmed"
-	var want []uint64
-	sigAt := func(r uint64) ([]byte, bool) {
-		b, ok := stored[r]
-		if !ok {
-			return nil, false
-		}
-		return b.Signature, true
-	}
-	for r := uint64(1); r <= R; r++ {
-		b, ok := stored[r]
-		bad := !ok
-		if ok {
-			cand := fix.CopyBeacon(b)
-			if trimmed {
-				cand.PreviousSig = nil
-				if chained {
-					p, pok := sigAt(r - 1)
-					if !pok {
-						bad = true
-					}
-					cand.PreviousSig = p
-				}
-			}
-			if !bad && k.RefVerify(cand) != nil {
-				bad = true
-			}
-		}
-		if bad {
-			want = append(want, r)
-		}
-	}
-	// the highest stored round bounds the check (CheckPastBeacons clamps to Last)
-	var last uint64
-	for r := range stored {
-		if r > last {
-			last = r
-		}
-	}
-	var w2 []uint64
-	for _, r := range want {
-		if r <= last {
-			w2 = append(w2, r)
-		}
-	}
-	want = w2
-	cl := bnet.NewRepairClient(k, foreign, R)
-	syncm, err := beacon.NewSyncManager(ctx, &beacon.SyncConfig{Log: fix.Logger(), Client: cl, Clock: &vrt.Clock{Offset: time.Hour}, Store: base, BoltdbStore: base,
-		Info: pubchain.NewChainInfo(k.Group()), NodeAddr: "self"})
-	if err != nil {
-		viol["harness-setup"] = err.Error()
-		return viol
-	}
-	beacon.VerifSetSyncManagerThresholdScheme(syncm, k.Scheme.ThresholdScheme)
-	defer syncm.Stop()
-	go syncm.Run() // as newChainStore does: the loop drains the manager's progress channel
-	got, err := syncm.CheckPastBeacons(ctx, R, nil)
-	if err != nil {
-		if len(stored) == 0 || (trimmed && chained) {
-			return viol // nothing readable at all (Last fails): refusing is fine
-		}
-		viol["check-error"] = fmt.Sprintf("CheckPastBeacons failed: %v", err)
-		return viol
-	}
-	sort.Slice(got, func(i, j int) bool { return got[i] < got[j] })
-	if fmt.Sprint(got) != fmt.Sprint(want) {
-		viol["wrong-report"] = fmt.Sprintf("CheckPastBeacons reported %v, the rounds that cannot be read back or do not verify are %v", got, want)
-		return viol
-	}
-	if len(got) == 0 {
-		return viol
-	}
-	// repair: bad peers first, the honest one last
-	peers := []dnet.Peer{peerAddr("peer-badsig"), peerAddr("peer-wrongchain"), peerAddr("peer-honest")}
-	if err := syncm.CorrectPastBeacons(ctx, got, peers, func(r, u uint64) {}); err != nil {
-		viol["repair-failed"] = fmt.Sprintf("CorrectPastBeacons(%v) with an honest peer available failed: %v", got, err)
-		return viol
-	}
-	again, err := syncm.CheckPastBeacons(ctx, R, nil)
-	if err != nil || len(again) != 0 {
-		viol["not-repaired"] = fmt.Sprintf("after CorrectPastBeacons(%v) the check still reports %v (%v)", got, again, err)
-	}
-	for r := uint64(1); r <= last; r++ {
-		b, err := base.Get(ctx, r)
-		if err != nil {
-			viol["not-repaired"] = fmt.Sprintf("round %d unreadable after repair: %v", r, err)
-			continue
-		}
-		if string(b.Signature) != string(ref[r].Signature) {
-			viol["wrong-content-after-repair"] = fmt.Sprintf("round %d holds a signature that is not the chain's after repair", r)
-		}
-	}
-	return viol
-}
+// checkCheck is c10-check: see package repairchk.
+func checkCheck(c *vlib.Check) { repairchk.Run(c, "c10/check", "c10-check") }
